@@ -338,3 +338,30 @@ def gen_replica(rnd):
         nodes.append({'id': 'Q', 'kind': 'named'})
         sel.append({'key': 'CZ', 'id': 'Zed', 'origin': 'Root', 'options': ['P', 'Q']})
     return sp
+
+
+def gen_option_tie(rnd):
+    """A node that is an option of two selection choices at DIFFERENT positions: it keeps the option number of the
+    first choice, so in the second choice two options carry the same number (their order must still be defined)."""
+    nodes = [{'id': 'S', 'kind': 'named'}]
+    edges, sel = [], []
+    for g in range(rnd.randint(1, 2)):
+        a, b_ = 'A%d' % g, 'B%d' % g
+        nodes += [{'id': a, 'kind': 'named'}, {'id': b_, 'kind': 'named'}]
+        edges += [['S', a], ['S', b_]]
+        n1 = rnd.randint(2, 4)
+        first = ['P%d_%d' % (g, j) for j in range(n1)]
+        nodes += [{'id': o, 'kind': 'named'} for o in first]
+        shared = first[rnd.randint(1, n1 - 1)]          # position >= 1 in the first choice
+        n2 = rnd.randint(1, 3)
+        extra = ['Q%d_%d' % (g, j) for j in range(n2)]
+        nodes += [{'id': o, 'kind': 'named'} for o in extra]
+        second = [shared] + extra                        # position 0 in the second choice
+        if rnd.random() < .4:
+            rnd.shuffle(second)
+        sel.append({'key': 'F%d' % g, 'id': 'F%d' % g, 'origin': a, 'options': first})
+        sel.append({'key': 'G%d' % g, 'id': 'G%d' % g, 'origin': b_, 'options': second})
+        for o in extra[:1]:
+            nodes.append({'id': o + 'x', 'kind': 'named'})
+            edges.append([o, o + 'x'])
+    return {'nodes': nodes, 'edges': edges, 'sel': sel, 'incompat': [], 'constraints': [], 'conn': [], 'start': ['S']}
